@@ -255,7 +255,26 @@ def build_T15c(tree):
         raise Unsupported('search_tree: children are collected before the item itself')
     if "if not hasattr(dataset, 'ContentSequence'): raise AttributeError(" not in ' '.join(ast.unparse(outer).split()):
         raise Unsupported('find_content_items: guard on the ContentSequence attribute changed')
-    shas.append(src)
+    # an item without concept name: the value types that may lack one and the name that stands in (module constants)
+    if ("if not hasattr(content_item, 'ConceptNameCodeSequence') and content_item.ValueType in _VALUE_TYPES_WITH_OPTIONAL_NAME: "
+            "name_code = _DEFAULT_NAME else: name_code = content_item.ConceptNameCodeSequence[0]") not in norm:
+        raise Unsupported('find_content_items.search_tree: the handling of an item without concept name changed')
+    consts = {}
+    for st_ in tree.body:
+        if isinstance(st_, ast.Assign) and len(st_.targets) == 1 and isinstance(st_.targets[0], ast.Name):
+            consts[st_.targets[0].id] = st_.value
+    vts = consts.get('_VALUE_TYPES_WITH_OPTIONAL_NAME')
+    dn = consts.get('_DEFAULT_NAME')
+    if not (isinstance(vts, ast.Tuple) and all(isinstance(e, ast.Constant) and isinstance(e.value, str) for e in vts.elts)):
+        raise Unsupported('sr/utils.py: _VALUE_TYPES_WITH_OPTIONAL_NAME is no longer a tuple of value types')
+    kw = {k.arg: k.value.value for k in dn.keywords if isinstance(k.value, ast.Constant)} if isinstance(dn, ast.Call) else {}
+    if not isinstance(dn, ast.Call) or ast.unparse(dn.func) != 'CodedConcept' or set(kw) != {'value', 'scheme_designator', 'meaning'}:
+        raise Unsupported('sr/utils.py: _DEFAULT_NAME is no longer CodedConcept(value=..., scheme_designator=..., meaning=...)')
+    parts.append(lean_table('findOptionalNameValueTypes', 'List String', ['"' + e.value + '"' for e in vts.elts],
+                            doc='`find_content_items`: value types whose items may lack a concept name (the default name stands in)'))
+    parts.append('/-- `find_content_items`: the name that stands in for a missing concept name (value|scheme|meaning) -/\n'
+                 f'def findDefaultName : String := "{kw["value"]}|{kw["scheme_designator"]}|{kw["meaning"]}"')
+    shas.append(src + ast.unparse(vts) + ast.unparse(dn))
     return '\n\n'.join(parts), hashlib.sha256(''.join(shas).encode()).hexdigest()
 
 
@@ -868,6 +887,165 @@ def build_T15i(tree):
     return '\n\n'.join(texts), hashlib.sha256(''.join(shas).encode()).hexdigest()
 
 
+# ---------------------------------------------------------------- T15j: the content-item parsers of sr/value_types.py
+def _dicom_keywords(text):
+    """names in an expression that look like DICOM keywords (CamelCase attribute names after a dot)"""
+    import re
+    return sorted(set(re.findall(r'\.([A-Z][A-Za-z0-9]+)\b', text)))
+
+
+def build_T15j(tree):
+    """sr/value_types.py: what turning a data set into a content item demands and what it writes.
+      Gen.srRequiredAttributes     value type -> attributes `_assert_value_type` demands
+      Gen.srContentItemClasses     value type -> class `_get_content_item_class` dispatches to
+      Gen.srOptionalNameClasses    classes that get the default concept name when the data set has none
+      Gen.srDefaultName            that default name as value|scheme|meaning
+      Gen.srParserAsserts          (class, value type its `from_dataset` asserts)
+      Gen.srParserStores           (class, target, keywords of the target path, DICOM keywords read by the stored value): every store of every
+                                   `from_dataset` and of `ContentItem._from_dataset_base`
+    plus shape checks on the order of the steps (textual)."""
+    texts, shas = [], []
+    q = _lean_str
+
+    def dict_of_lists(fn_name, var):
+        fn = find_func(tree, fn_name)
+        st = _one(strip_doc(fn.body), lambda s: isinstance(s, ast.Assign) and _norm(s.targets[0]) == var and isinstance(s.value, ast.Dict),
+                  f'{var} dict of {fn_name}')
+        rows = []
+        for k, v in zip(st.value.keys, st.value.values):
+            kt = _norm(k)
+            if not kt.startswith('ValueTypeValues.'):
+                raise Unsupported(f'{fn_name}: key {kt} is not a ValueTypeValues member')
+            rows.append((kt.split('.', 1)[1], v))
+        shas.append(_norm(st))
+        return fn, rows
+    fn, rows = dict_of_lists('_assert_value_type', 'required_attrs')
+    req = []
+    for k, v in rows:
+        if not isinstance(v, ast.List) or not all(isinstance(e, ast.Constant) and isinstance(e.value, str) for e in v.elts):
+            raise Unsupported('_assert_value_type: required_attrs values are no longer lists of keywords')
+        req.append((k, [e.value for e in v.elts]))
+    body = [_norm(x) for x in strip_doc(fn.body)]
+    for needle in ("if not hasattr(dataset, 'ValueType'):", 'if not dataset.ValueType == value_type.value:',
+                   'for attr in required_attrs[value_type]:'):
+        if not any(b.startswith(needle) for b in body):
+            raise Unsupported(f'_assert_value_type: `{needle}` not found')
+    loop = _one(strip_doc(fn.body), lambda s: isinstance(s, ast.For), 'loop of _assert_value_type')
+    if _norm(loop.body[0].test) != 'not hasattr(dataset, attr)' or 'AttributeError' not in _norm(loop.body[0].body[0]):
+        raise Unsupported('_assert_value_type: a missing required attribute is no longer an AttributeError')
+    # member NAME -> VALUE of the enumeration (the tables are keyed by the stored string)
+    import os
+    et = ast.parse(open(os.path.join(os.environ.get('HD_REPO', '/repo'), 'src', 'highdicom', 'sr', 'enum.py')).read())
+    members = None
+    for n in et.body:
+        if isinstance(n, ast.ClassDef) and n.name == 'ValueTypeValues':
+            members = {st.targets[0].id: st.value.value for st in n.body
+                       if isinstance(st, ast.Assign) and isinstance(st.value, ast.Constant) and isinstance(st.value.value, str)}
+    if not members:
+        raise Unsupported('sr/enum.py: ValueTypeValues not found')
+
+    def val(member):
+        if member not in members:
+            raise Unsupported(f'ValueTypeValues.{member} is not a member of the enumeration')
+        return members[member]
+    texts.append(lean_table('srRequiredAttributes', 'List (String × List String)',
+                            ['(' + q(val(k)) + ', [' + ', '.join(q(a) for a in v) + '])' for k, v in req],
+                            doc='`_assert_value_type`: attributes a data set of the value type must carry (AttributeError otherwise)'))
+    fn, rows = dict_of_lists('_get_content_item_class', 'python_types')
+    classes = []
+    for k, v in rows:
+        if not isinstance(v, ast.Name):
+            raise Unsupported('_get_content_item_class: values are no longer class names')
+        classes.append((val(k), v.id))
+    texts.append(lean_table('srContentItemClasses', 'List (String × String)', ['(' + q(a) + ', ' + q(b) + ')' for a, b in classes],
+                            doc='`_get_content_item_class`: value type -> content item class'))
+    drv = find_func(tree, 'ContentItem._from_dataset_derived')
+    if [_norm(x) for x in strip_doc(drv.body)] != ['value_type = ValueTypeValues(dataset.ValueType)',
+                                                   'content_item_cls = _get_content_item_class(value_type)',
+                                                   'return content_item_cls.from_dataset(dataset, copy=False)']:
+        raise Unsupported('ContentItem._from_dataset_derived changed shape')
+    base = find_func(tree, 'ContentItem._from_dataset_base')
+    bb = strip_doc(base.body)
+    opt = _one(bb, lambda s: isinstance(s, ast.Assign) and _norm(s.targets[0]) == 'value_types_with_optional_name', 'value_types_with_optional_name')
+    if not isinstance(opt.value, ast.Tuple) or not all(isinstance(e, ast.Constant) for e in opt.value.elts):
+        raise Unsupported('_from_dataset_base: value_types_with_optional_name is no longer a tuple of class names')
+    texts.append(lean_table('srOptionalNameClasses', 'List String', [q(e.value) for e in opt.value.elts],
+                            doc='`ContentItem._from_dataset_base`: classes whose data set may lack a concept name (the default name is stored then)'))
+    order = [_norm(x).split('\n')[0] for x in bb]
+    want_order = ["if not hasattr(dataset, 'ValueType'):", 'value_types_with_optional_name =', "if not hasattr(dataset, 'ConceptNameCodeSequence'):",
+                  'item = dataset', 'item.__class__ = cls', "if hasattr(item, 'ContentSequence'):", 'item.ConceptNameCodeSequence =',
+                  'return cast(Self, item)']
+    if len(order) != len(want_order) or not all(o.startswith(w) for o, w in zip(order, want_order)):
+        raise Unsupported(f'ContentItem._from_dataset_base: the sequence of steps changed: {order}')
+    nameif = bb[2]
+    inner = nameif.body[0]
+    if not (isinstance(inner, ast.If) and _norm(inner.test) == 'cls.__name__ in value_types_with_optional_name' and
+            'AttributeError' in _norm(inner.orelse[0])):
+        raise Unsupported('_from_dataset_base: the handling of a missing concept name changed')
+    dn = _one(inner.body, lambda s: isinstance(s, ast.Assign) and _norm(s.targets[0]) == 'default_name', 'default_name')
+    kw = {k.arg: k.value.value for k in dn.value.keywords if isinstance(k.value, ast.Constant)}
+    if _norm(dn.value.func) != 'CodedConcept' or set(kw) != {'value', 'scheme_designator', 'meaning'}:
+        raise Unsupported('_from_dataset_base: the default concept name changed shape')
+    texts.append(f'/-- `ContentItem._from_dataset_base`: the default concept name (value|scheme|meaning) -/\ndef srDefaultName : String := '
+                 + q(f'{kw["value"]}|{kw["scheme_designator"]}|{kw["meaning"]}'))
+    seqif = bb[5]
+    if _norm(seqif.body[0]) != 'item.ContentSequence = ContentSequence.from_sequence(item.ContentSequence, copy=False)' or seqif.orelse:
+        raise Unsupported('_from_dataset_base: the conversion of the content sequence changed')
+    fs = find_func(tree, 'ContentSequence.from_sequence')
+    fsb = [_norm(x) for x in strip_doc(fs.body)]
+    if not (fsb[0] == 'content_items = []' and fsb[-1] == 'return ContentSequence(content_items, is_root=is_root, is_sr=is_sr)' and len(fsb) == 3):
+        raise Unsupported('ContentSequence.from_sequence changed shape')
+    lp = strip_doc(fs.body)[1]
+    lb = [_norm(x) for x in lp.body]
+    if not (isinstance(lp, ast.For) and _norm(lp.iter) == 'enumerate(sequence, 1)' and
+            lb[0] == 'cls._check_dataset(dataset, is_root=is_root, is_sr=is_sr, index=i)' and
+            lb[2] == 'item = ContentItem._from_dataset_derived(dataset_copy)' and lb[3] == 'content_items.append(item)' and len(lb) == 4):
+        raise Unsupported('ContentSequence.from_sequence: the loop body changed')
+    cd = find_func(tree, 'ContentSequence._check_dataset')
+    cdt = _norm(cd)
+    for needle in ('ValueTypeValues(dataset.ValueType)', "if not hasattr(dataset, 'RelationshipType') and (not is_root) and is_sr:"):
+        if needle not in cdt:
+            raise Unsupported(f'ContentSequence._check_dataset: `{needle}` not found')
+    # the parsers
+    asserts, stores = [], []
+    for cls in [n for n in tree.body if isinstance(n, ast.ClassDef)]:
+        for fn in [n for n in cls.body if isinstance(n, ast.FunctionDef) and n.name in ('from_dataset', '_from_dataset_base')]:
+            if cls.name == 'ContentSequence':
+                continue
+            b = strip_doc(fn.body)
+            if fn.name == 'from_dataset':
+                a = [x for x in b if isinstance(x, ast.Expr) and isinstance(x.value, ast.Call) and _norm(x.value.func) == '_assert_value_type']
+                bs = [x for x in b if isinstance(x, ast.Assign) and _norm(x.value) == 'super()._from_dataset_base(dataset_copy)']
+                if len(a) != 1 or len(bs) != 1 or b.index(a[0]) > b.index(bs[0]) or _norm(a[0].value.args[0]) != 'dataset_copy':
+                    raise Unsupported(f'{cls.name}.from_dataset: `_assert_value_type(dataset_copy, ...)` then `super()._from_dataset_base(dataset_copy)` not found')
+                vt = _norm(a[0].value.args[1])
+                if not vt.startswith('ValueTypeValues.'):
+                    raise Unsupported(f'{cls.name}.from_dataset asserts {vt}')
+                asserts.append((cls.name, val(vt.split('.', 1)[1])))
+                if not (isinstance(b[0], ast.If) and _norm(b[0].test) == 'copy' and _norm(b[0].body[0]) == 'dataset_copy = deepcopy(dataset)'
+                        and _norm(b[0].orelse[0]) == 'dataset_copy = dataset'):
+                    raise Unsupported(f'{cls.name}.from_dataset: the copy / no-copy head changed')
+            eff = _effects(b, (), [])
+            local_defs = {t: v for kind, t, c, v in eff if kind == 'name'}
+            for kind, t, c, v in eff:
+                if kind not in ('attr', 'item'):
+                    continue
+                expanded = v
+                for _ in range(3):
+                    for nm, d in local_defs.items():
+                        expanded = __import__('re').sub(r'\b' + nm + r'\b', '(' + d + ')', expanded) if nm not in ('item', 'dataset', 'dataset_copy') else expanded
+                stores.append((cls.name, t, _dicom_keywords(' ' + t), _dicom_keywords(' ' + expanded)))
+            shas.append(_norm(fn))
+    texts.append(lean_table('srParserAsserts', 'List (String × String)', ['(' + q(a) + ', ' + q(b) + ')' for a, b in asserts],
+                            doc='(class, value type) asserted by the `from_dataset` of every content item class'))
+    texts.append(lean_table('srParserStores', 'List (String × String × List String × List String)',
+                            ['(' + q(a) + ', ' + q(b) + ', [' + ', '.join(q(x) for x in c) + '], [' + ', '.join(q(x) for x in d) + '])'
+                             for a, b, c, d in stores],
+                            doc='(class, target, DICOM keywords of the target path, DICOM keywords read by the stored value) of every '
+                                'attribute store of the content item parsers'))
+    return '\n\n'.join(texts), hashlib.sha256(''.join(shas).encode()).hexdigest()
+
+
 TARGETS = {'T15a': {'file': 'sr/sop.py', 'build': build_T15a},
            'T15e': {'file': 'sr/enum.py', 'build': build_T15e},
            'T15d': {'file': 'sr/sop.py', 'build': build_T15d},
@@ -876,4 +1054,5 @@ TARGETS = {'T15a': {'file': 'sr/sop.py', 'build': build_T15a},
            'T15f': {'file': 'sr/content.py', 'build': build_T15f},
            'T15g': {'file': 'sr/content.py', 'build': build_T15g},
            'T15h': {'file': 'sr/sop.py', 'build': build_T15h},
-           'T15i': {'file': 'sr/sop.py', 'build': build_T15i}}
+           'T15i': {'file': 'sr/sop.py', 'build': build_T15i},
+           'T15j': {'file': 'sr/value_types.py', 'build': build_T15j}}
